@@ -35,16 +35,25 @@ Record task := mkTaskK {
      [t_kube] BindingType == OnKubernetesEvent, [t_group] HookMetadata.Group (0 = ""),
      [t_exec] ExecuteOnSynchronization (set from the binding's executeHookOnSynchronization by
      taskHandleEnableKubernetesBindings; false in every task built elsewhere) *)
-  t_kube : bool; t_group : N; t_exec : bool }.
-(* a task that is not of a kubernetes binding *)
+  t_kube : bool; t_group : N; t_exec : bool;
+  (* [t_af] HookMetadata.AllowFailure: the failure policy of the task's binding (`allowFailure` of a
+     schedule / kubernetes binding; false in the tasks of the webhook handlers).  The combiner reads it
+     for CombineResult.AllowFailure only ([collected_af] below); it takes no part in the choice of
+     the tasks that are merged. *)
+  t_af : bool }.
+(* a task that is not of a kubernetes binding, with the default failure policy *)
 Definition mkTask (id hook ty : N) (meta : bool) (cs : list ctx) (mids : list N) (qn : N) : task :=
-  mkTaskK id hook ty meta cs mids qn false 0 false.
+  mkTaskK id hook ty meta cs mids qn false 0 false false.
+(* the same task with another failure policy *)
+Definition with_af (af : bool) (t : task) : task :=
+  mkTaskK (t_id t) (t_hook t) (t_ty t) (t_meta t) (t_ctxs t) (t_mids t) (t_qn t)
+          (t_kube t) (t_group t) (t_exec t) af.
 
 Record result := mkResult { r_ctxs : list ctx; r_mids : list N }.
-(* Not modelled: the field CombineResult.AllowFailure (commit b66e651: false iff some
-   merged task does not allow failure; the caller and-s it into hookMeta.AllowFailure for
-   the retry decision, property C04).  It does not influence contexts, monitor ids or the
-   queue; the exported twin does not compute it. *)
+(* The field CombineResult.AllowFailure (commit b66e651: false iff some merged task does not
+   allow failure; the caller and-s it into hookMeta.AllowFailure for the retry decision,
+   property C04) is [collected_af] below, kept outside [result]: it does not influence
+   contexts, monitor ids or the queue; the exported twin does not compute it. *)
 
 (* ---- q.Iterate(func(tsk) {...}) : lines 38-68 ---- *)
 (* state of the closure: (stopIterate, otherTasks).  [stopfn] is stopCombineFn
@@ -65,6 +74,10 @@ Definition iter_step (t : task) (stopfn : task -> bool)
 
 Definition iterate_collect (t : task) (stopfn : task -> bool) (qi : list task) : list task :=
   snd (fold_left (iter_step t stopfn) qi (false, [])).
+
+(* res.AllowFailure = true; for _, tsk := range otherTasks { if !tsk.AllowFailure { res.AllowFailure = false } } *)
+Definition collected_af (t : task) (stopfn : task -> bool) (qi : list task) : bool :=
+  forallb t_af (iterate_collect t stopfn qi).
 
 (* ---- tasksFilter : map[string]bool, as an association list, newest binding first ---- *)
 Definition fmap := list (N * bool).
@@ -254,11 +267,13 @@ Definition run_set (i : sinput) : sobs :=
                var stopCombineFn func(tsk) bool
                if isSynchronization { stopCombineFn = tsk is a Synchronization && !ExecuteOnSynchronization }
                combineResult := op.combineBindingContextForHook(tqs, tqs.GetByName(t.GetQueueName()), t, stopCombineFn)
-               if combineResult != nil { BindingContext, MonitorIDs = ...; t.UpdateMetadata(hookMeta) }
+               if combineResult != nil { BindingContext, MonitorIDs = ...
+                                         hookMeta.AllowFailure = hookMeta.AllowFailure && combineResult.AllowFailure
+                                         t.UpdateMetadata(hookMeta) }
            }
        }
        res.Status = "Success"                              -- default when shouldRunHook is false
-       if shouldRunHook { run the hook; Fail on a non-zero exit }
+       if shouldRunHook { run the hook; on a non-zero exit: Success if hookMeta.AllowFailure, else Fail }
        if Success: unlock the monitors of hookMeta.MonitorIDs
 
    A head that is not executed (a Synchronization of a v0 hook, or of a binding with
@@ -266,8 +281,9 @@ Definition run_set (i : sinput) : sobs :=
 
    Scope of this part: HookRun tasks with metadata; a task with BindingType kubernetes has at least one
    binding context (BindingContext[0] is read); the Type field is set in kubernetes contexts only, so
-   "BindingContext[0].Type == Synchronization" is [c_sync] of the first context; AllowFailure is false
-   (a failing run is a Fail, property C04 deals with the other case).  Task types: 0 = HookRun; any other
+   "BindingContext[0].Type == Synchronization" is [c_sync] of the first context; AllowFailure
+   is [t_af] (seeded change C07-7: tasks of bindings with different `allowFailure` in one backlog; a failing
+   run of a task that - after the merge - allows failure is a Success, the rule itself is property C04's).  Task types: 0 = HookRun; any other
    type is handled by another branch of taskHandler that never runs a hook and never combines (the
    harness uses EnableScheduleBindings). *)
 
@@ -301,8 +317,19 @@ Definition gate (v0 : bool) (t : task) : bool :=
   should_combine (should_run v0 t) (negb v0) (t_kube t) (is_sync t) (t_group t).
 
 (* hookMeta.BindingContext / MonitorIDs = ...; t.UpdateMetadata(hookMeta) *)
-Definition set_combined (t : task) (cs : list ctx) (ms : list N) : task :=
-  mkTaskK (t_id t) (t_hook t) (t_ty t) (t_meta t) cs ms (t_qn t) (t_kube t) (t_group t) (t_exec t).
+Definition set_combined (t : task) (cs : list ctx) (ms : list N) (af : bool) : task :=
+  mkTaskK (t_id t) (t_hook t) (t_ty t) (t_meta t) cs ms (t_qn t) (t_kube t) (t_group t) (t_exec t) af.
+
+(* hookMeta.AllowFailure after the call: and-ed with CombineResult.AllowFailure when there is a result *)
+Definition combined_af (t : task) (qs : qset) (r : option result) : bool :=
+  match r with
+  | None => t_af t
+  | Some _ =>
+      t_af t && match get_by_name (t_qn t) qs with
+                | Some qi => collected_af t (stop_combine t) qi
+                | None => true
+                end
+  end.
 
 (* taskHandleHookRun up to the hook execution; returns the executions (none when the hook is not to
    be run), the task's metadata afterwards, the queue set *)
@@ -310,7 +337,7 @@ Definition handle_hook_run (v0 : bool) (t : task) (qs : qset) : list orun * task
   if gate v0 t then
     let p := combine_set (stop_combine t) t qs [] in
     ([mkRun (t_hook t) (delivered_ctxs t (fst p))],
-     set_combined t (delivered_ctxs t (fst p)) (delivered_mids t (fst p)),
+     set_combined t (delivered_ctxs t (fst p)) (delivered_mids t (fst p)) (combined_af t qs (fst p)),
      snd p)
   else
     ((if should_run v0 t then [mkRun (t_hook t) (t_ctxs t)] else []), t, qs).
@@ -318,6 +345,9 @@ Definition handle_hook_run (v0 : bool) (t : task) (qs : qset) : list orun * task
 (* the handler's status: Success when nothing was run, otherwise by the exit code *)
 Definition status_ok (runs : list orun) (ok : bool) : bool :=
   match runs with [] => true | _ :: _ => ok end.
+(* ... and a failed run of a task that (after the merge) allows failure is a Success all the same:
+   [t'] is the task's metadata after the handler's combine *)
+Definition forgiven (ok : bool) (t' : task) : bool := ok || t_af t'.
 
 (* q.remove(id): the first task with that id *)
 Fixpoint remove_id (id : N) (q : list task) : list task :=
@@ -341,7 +371,7 @@ Definition model_step (v0s : list N) (qs : qset) (st : ostep) : ostepobs :=
           if N.eqb (t_ty t) 0 then
             let h := handle_hook_run (mem_N (t_hook t) v0s) t qs in
             let q' := match get_by_name qn (snd h) with Some q' => q' | None => [] end in
-            let success := status_ok (fst (fst h)) ok in
+            let success := status_ok (fst (fst h)) (forgiven ok (snd (fst h))) in
             (* Success: the worker removes the task by id; Fail: it stays, with the metadata
                the handler stored, and is retried after the back-off delay *)
             mkSO (fst (fst h)) success
@@ -352,7 +382,7 @@ Definition model_step (v0s : list N) (qs : qset) (st : ostep) : ostepobs :=
       end
   | SLoose t ok =>
       let h := handle_hook_run (mem_N (t_hook t) v0s) t qs in
-      mkSO (fst (fst h)) (status_ok (fst (fst h)) ok) (snd h)   (* nobody removes anything: the task is in no queue *)
+      mkSO (fst (fst h)) (status_ok (fst (fst h)) (forgiven ok (snd (fst h)))) (snd h)   (* nobody removes anything: the task is in no queue *)
   end.
 
 Fixpoint run_session (v0s : list N) (qs : qset) (steps : list ostep) : list ostepobs :=
